@@ -242,7 +242,22 @@ func (fc *FnCtx) specialCall(ins ssa.Instruction, callee *ssa.Function, cc *ssa.
 			return true
 		}
 	}
+	for _, p := range errorWrappers {
+		if name == p && callee.Signature.Results().Len() == 1 && len(args) >= 1 {
+			// cockroachdb/errors: "If err is nil, WithMessage/Wrap returns nil", otherwise a wrapper (non-nil)
+			model("error wrappers return nil exactly for a nil error: " + p)
+			rs := fc.unknownCall(ins, name, callee.Signature, true)
+			fc.assume(fmt.Sprintf("(= (= (itag %s) 0) (= (itag %s) 0))", rs[0].t, args[0].t), "wrapper nil iff wrapped nil")
+			setResult(rs)
+			return true
+		}
+	}
 	return fc.specialSync(ins, callee, cc, args, setResult)
+}
+
+var errorWrappers = []string{
+	"github.com/cockroachdb/errors.WithMessage", "github.com/cockroachdb/errors.WithMessagef",
+	"github.com/cockroachdb/errors.Wrap", "github.com/cockroachdb/errors.Wrapf",
 }
 
 func identTerm(t string) string {
@@ -270,7 +285,6 @@ func (fc *FnCtx) splitModel(ins ssa.Instruction, s Val, sep string, setResult fu
 	v := g.def(fc.prefix+"split", "Slice", fmt.Sprintf("(mkslice %s 0 %s %s)", r, n, n))
 	setResult([]Val{{t: v, ty: types.NewSlice(tString)}})
 }
-
 
 var baseMsgGetters = map[string]string{"BeginTs": "BeginTimestamp", "EndTs": "EndTimestamp", "HashKeys": "HashValues", "Position": "MsgPosition"}
 
